@@ -20,7 +20,10 @@ META = {
             "history, a kicked connection that is still serving can end after at most two kicker steps whatever its "
             "peer does, and a kick without the forced close is kept as a refuted counter-model (the kicked connection "
             "of a silent peer keeps its connect notification and never gets the disconnect); a stream with raw "
-            "websocket peers that never answer exercises it.",
+            "websocket peers that never answer exercises it. The registry is written by upgrade and by the connection's "
+            "own deferred unmap only (every writer of the endpoints map and every caller of unmap is read off the "
+            "source); an unmap from the front path is kept as a refuted counter-model and a stream of front "
+            "connections whose dial a live endpoint refuses exercises it.",
     "note": "Trusted: Coq kernel + vm_compute; translator gen/sni_rpc.go; harness/cmd/c15 + sniproxy/verif_rpc.go + "
             "verif_point.go (one schedule point after ep.serve()); sync.Mutex, the websocket upgrade and the "
             "background old.Close() are single abstract steps; the reason a serve loop ends is nondeterministic in "
@@ -108,6 +111,34 @@ def impl_oracle(c):
             for sv, l in per.items():
                 if len(l) != 2 or l[0][0] != "connect" or l[1][0] != "disconnect" or l[0][1] != l[1][1]:
                     out.append(("callbacks-unpaired", "session %s has notifications %s" % (sv, l)))
+        return out
+    if c["stream"] == "front":
+        out = [x for x in out if x[0] not in ("callbacks-unpaired", "hang")]
+        for o in c.get("front", []):
+            how = "round %d: a live endpoint answered the dial of %s front connection(s) with an error (%s)" \
+                  % (o["round"], o.get("refused"), {"side-refused": "its side dial failed",
+                                                    "accept-timeout": "full accept backlog, accept timer"}[o["how"]])
+            if o.get("hang"):
+                out.append(("front-hang", "%s; %s" % (o["hang"], how)))
+                continue
+            if o.get("after") != "live":
+                out.append(("front-dial-unregistered-live-endpoint",
+                            "after the refused dial the name resolves to '%s' although the most recently connected "
+                            "endpoint has not ended (it %s a Hello; notifications so far %s); %s"
+                            % (o.get("after"), "still answers" if o.get("alive") else "does not answer",
+                               [(x["k"], x["s"]) for x in o.get("notes", [])], how)))
+            if not o.get("later_served"):
+                out.append(("later-front-not-served",
+                            "a later front connection did not reach the live endpoint's Accept; " + how))
+            if [x["k"] for x in o.get("notes", [])] != ["connect"]:
+                out.append(("callbacks-unpaired", "while the endpoint was live its notifications were %s; %s"
+                            % ([(x["k"], x["s"]) for x in o.get("notes", [])], how)))
+            ne = o.get("notes_end", [])
+            if [x["k"] for x in ne] != ["connect", "disconnect"] or ne[0]["s"] != ne[1]["s"]:
+                out.append(("callbacks-unpaired", "after the endpoint had ended its notifications were %s; %s"
+                            % ([(x["k"], x["s"]) for x in ne], how)))
+            if o.get("final") != "none":
+                out.append(("ended-still-registered", "the name still resolves after the endpoint ended; " + how))
         return out
     if c["stream"] == "silent":
         out = [x for x in out if x[0] not in ("callbacks-unpaired", "hang")]
@@ -219,7 +250,9 @@ def run(ck):
             nrace = 40
         nsilent = 1 if not ck.thorough else 10       # (2 rounds each; a round costs the kick's 3 s time-out)
         rc, out, err = vlib.sh2([binp, "-seed", str(ck.seed), "-n", str(n), "-free", str(nfree),
-                                 "-race", str(nrace), "-silent", str(nsilent)], timeout=3000)
+                                 "-race", str(nrace), "-silent", str(nsilent),
+                                 "-front", "2" if not ck.thorough else "12", "-slow", "0" if not ck.thorough else "1"],
+                                timeout=3000)
         if rc != 0:
             ck.broken.append({"what": "harness run failed", "detail": err[-1500:]})
         for line in out.splitlines():
@@ -237,6 +270,10 @@ def run(ck):
         key = [c["steps"], c.get("looks")] if c["stream"] == "forced" else [c["stream"], c["i"], len(c.get("notes", []))]
         if c["stream"] == "race":
             key = [c["i"], [(o["how"], o["offset_us"]) for o in c.get("race", [])]]
+        if c["stream"] == "front":
+            key = [c["i"], [(o["how"], o.get("refused"), o.get("after")) for o in c.get("front", [])]]
+            ck.coverage["front_refused_dials"] = ck.coverage.get("front_refused_dials", 0) \
+                + sum(o.get("refused", 0) for o in c.get("front", []))
         if c["stream"] == "silent":
             key = [c["i"], [(o["silent_peers"], o.get("after"), len(o.get("notes", []))) for o in c.get("silent", [])]]
             ck.coverage["silent_peer_rounds"] = ck.coverage.get("silent_peer_rounds", 0) + len(c.get("silent", []))
@@ -303,7 +340,12 @@ def run(ck):
              "when a source obligation is broken); plus a silent-peer stream: 1-2 raw websocket clients under one name "
              "that read and never answer, each kicked by the next, the last by a real endpoint: every kicked "
              "connection's ServeBack must return within 10 s of its kick (3 s on a sound tree: the kick's forced close), "
-             "exactly one connect and one matching disconnect per accepted connection, the name resolves to the newest. A forced schedule is non-trivial if it has >= 2 "
+             "exactly one connect and one matching disconnect per accepted connection, the name resolves to the newest; "
+             "plus a front-path stream: a live endpoint answers the dial of 1-2 front connections (real ServeFront, TLS "
+             "ClientHello) with an error (side mode with an application dialer that cannot reach the proxy for side "
+             "connections; thorough also a full accept backlog with the 10 s accept timer): the name must still resolve to "
+             "that endpoint, which still answers; one connect and no disconnect; a later front connection reaches its "
+             "Accept. A forced schedule is non-trivial if it has >= 2 "
              "connects; also failed upgrades (plain HTTP request), side-websocket probes for an unknown session (upgraded iff "
              "the name resolves) and connections whose OnConnect / OnDisconnect callback panics; distinct = distinct (schedule, lookups after every step)",
         assumptions=["OnConnect/OnDisconnect are the user's callbacks; the session value is whatever OnConnect returns",
